@@ -922,16 +922,21 @@ int cp_rsa_ver(uint8_t *sig, size_t sig_len, const uint8_t *msg, size_t msg_len,
 				result = util_cmp_sec(h1, h2, msg_len);
 			}
 #else
-			memset(h1, 0, RLC_MAX(msg_len, RLC_MD_LEN));
-			bn_write_bin(h1, size - pad_len, eb);
-
-			if (!hash) {
-				md_map(h2, msg, msg_len);
-				/* Everything went ok, so signature status is changed. */
-				result = util_cmp_sec(h1, h2, RLC_MD_LEN);
+			if (size - pad_len != (!hash ? RLC_MD_LEN : msg_len)) {
+				/* The recovered digest does not have the expected length. */
+				result = RLC_NE;
 			} else {
-				/* Everything went ok, so signature status is changed. */
-				result = util_cmp_sec(h1, msg, msg_len);
+				memset(h1, 0, RLC_MAX(msg_len, RLC_MD_LEN));
+				bn_write_bin(h1, size - pad_len, eb);
+
+				if (!hash) {
+					md_map(h2, msg, msg_len);
+					/* Everything went ok, so signature status is changed. */
+					result = util_cmp_sec(h1, h2, RLC_MD_LEN);
+				} else {
+					/* Everything went ok, so signature status is changed. */
+					result = util_cmp_sec(h1, msg, msg_len);
+				}
 			}
 #endif
 			result = (result == RLC_EQ ? 1 : 0);
